@@ -259,10 +259,7 @@ Qed.
 Section WithParams.
   Variable valid : bytes -> bytes -> bool.
   Variable bdef : pmap.
-  Variable hb : pgs -> bool.
-  Variable session : nat -> bool.
   Hypothesis Hbdef : bdef_ok valid bdef = true.
-  Hypothesis Hhb : forall p, is_unclean p = true -> hb p = true.
 
   Definition AllValid (m : pmap) : Prop :=
     forall k v, tracked k = true -> pget k m = Some v -> valid k v = true.
@@ -938,44 +935,11 @@ Section WithParams.
   Lemma pool_valid : AllValid (pool bdef).
   Proof. intros k v Hk Hg. rewrite pool_bdef in Hg by auto. eapply bdef_valid; eauto. Qed.
 
-  (** *** the world invariant *)
   Lemma upd_eq : forall A (f : nat -> A) i x, upd f i x i = x.
   Proof. intros. unfold upd. rewrite Nat.eqb_refl. auto. Qed.
 
   Lemma upd_neq : forall A (f : nat -> A) i j x, j <> i -> upd f i x j = f j.
   Proof. intros. unfold upd. destruct (Nat.eqb j i) eqn:E; auto. apply Nat.eqb_eq in E. contradiction. Qed.
-
-  Record Inv (w : world) : Prop := {
-    inv_srv : forall s, SrvInv (w_srv w s);
-    inv_idle : forall s, w_owner w s = None ->
-      Idle (w_srv w s) /\ (w_oos w = false -> Clean (b_sess (truth (w_srv w s))));
-    inv_held : forall s c, w_owner w s = Some c ->
-      exists cl, w_cli w c = Some cl /\ c_held cl = Some s /\
-        Agree (c_map cl) (truth (w_srv w s)) /\ (in_txn (pg (w_srv w s)) = true \/ session c = true) /\
-        Quies (truth (w_srv w s)) (flags (pg (w_srv w s))) /\
-        (w_oos w = false -> CleanOK (truth (w_srv w s)) (flags (pg (w_srv w s))));
-    inv_cli : forall c cl, w_cli w c = Some cl ->
-      Has5 (c_map cl) /\ AllValid (c_map cl) /\ ToldOK cl /\
-      (forall s, c_held cl = Some s -> w_owner w s = Some c);
-    inv_log : forall c s co dk bv cv evv, In (EvStmt c s co dk bv cv evv) (w_log w) ->
-      bv = cv /\ (co = true -> w_oos w = false -> dk = []) }.
-
-  Lemma inv_init : Inv (init bdef).
-  Proof.
-    destruct fresh_inv as (H1 & H2 & H3).
-    constructor; cbn [init w_srv w_cli w_owner w_oos w_log]; auto; try (intros; discriminate).
-    intros. contradiction.
-  Qed.
-
-  Definition op_ok (o : op) : Prop :=
-    match o with OConnect _ raw => connect_valid valid raw = true | _ => True end.
-
-  Lemma release_spec : forall w c s sv cl oos lg,
-    release valid bdef w c s sv cl oos lg =
-    mkW (upd (w_srv w) s (fst (checkin valid bdef sv))) (upd (w_cli w) c cl) (upd (w_owner w) s None) oos
-        (log_if (fst (snd (checkin valid bdef sv)) || snd (snd (checkin valid bdef sv)))
-                (EvClean s (fst (snd (checkin valid bdef sv))) (snd (snd (checkin valid bdef sv)))) lg).
-  Proof. intros. unfold release. destruct (checkin valid bdef sv) as [sv' [rb ra]]. reflexivity. Qed.
 
   Lemma in_log_if : forall b e l x, In x (log_if b e l) -> x = e \/ In x l.
   Proof. intros. unfold log_if in H. destruct b; auto. destruct H; auto. Qed.
@@ -993,6 +957,52 @@ Section WithParams.
   Lemma tvals_ext : forall f g, (forall k, tracked k = true -> f k = g k) -> tvals f = tvals g.
   Proof. intros. unfold tvals. apply map_ext_in. intros k Hk. apply H. apply tracked_in. auto. Qed.
 
+End WithParams.
+
+(** ** The world: per-connection defaults [bdefs], the pool snapshot taken from connection [psrc] *)
+Section World.
+  Variable valid : bytes -> bytes -> bool.
+  Variable bdefs : nat -> pmap.
+  Variable psrc : nat.
+  Variable hb : pgs -> bool.
+  Variable session : nat -> bool.
+  Hypothesis Hbdefs : forall s, bdef_ok valid (bdefs s) = true.
+  Hypothesis Hhb : forall p, is_unclean p = true -> hb p = true.
+
+  (** *** the world invariant *)
+  Record Inv (w : world) : Prop := {
+    inv_srv : forall s, SrvInv valid (w_srv w s);
+    inv_idle : forall s, w_owner w s = None ->
+      Idle (w_srv w s) /\ (w_oos w = false -> Clean (bdefs s) (b_sess (truth (w_srv w s))));
+    inv_held : forall s c, w_owner w s = Some c ->
+      exists cl, w_cli w c = Some cl /\ c_held cl = Some s /\
+        Agree (c_map cl) (truth (w_srv w s)) /\ (in_txn (pg (w_srv w s)) = true \/ session c = true) /\
+        Quies (truth (w_srv w s)) (flags (pg (w_srv w s))) /\
+        (w_oos w = false -> CleanOK (bdefs s) (truth (w_srv w s)) (flags (pg (w_srv w s))));
+    inv_cli : forall c cl, w_cli w c = Some cl ->
+      Has5 (c_map cl) /\ AllValid valid (c_map cl) /\ ToldOK cl /\
+      (forall s, c_held cl = Some s -> w_owner w s = Some c);
+    inv_log : forall c s co dk bv cv evv, In (EvStmt c s co dk bv cv evv) (w_log w) ->
+      bv = cv /\ (co = true -> w_oos w = false -> dk = []) }.
+
+  Lemma inv_init : Inv (init bdefs).
+  Proof.
+    constructor; cbn [init w_srv w_cli w_owner w_oos w_log]; try (intros; discriminate).
+    - intros s. apply (fresh_inv valid (bdefs s) (Hbdefs s)).
+    - intros s _. destruct (fresh_inv valid (bdefs s) (Hbdefs s)) as (H1 & H2 & H3). auto.
+    - intros. contradiction.
+  Qed.
+
+  Definition op_ok (o : op) : Prop :=
+    match o with OConnect _ raw => connect_valid valid raw = true | _ => True end.
+
+  Lemma release_spec : forall w c s sv cl oos lg,
+    release valid bdefs w c s sv cl oos lg =
+    mkW (upd (w_srv w) s (fst (checkin valid (bdefs s) sv))) (upd (w_cli w) c cl) (upd (w_owner w) s None) oos
+        (log_if (fst (snd (checkin valid (bdefs s) sv)) || snd (snd (checkin valid (bdefs s) sv)))
+                (EvClean s (fst (snd (checkin valid (bdefs s) sv))) (snd (snd (checkin valid (bdefs s) sv)))) lg).
+  Proof. intros. unfold release. destruct (checkin valid (bdefs s) sv) as [sv' [rb ra]]. reflexivity. Qed.
+
   Lemma inv_ext : forall w1 w2, (forall s, w_srv w1 s = w_srv w2 s) -> (forall c, w_cli w1 c = w_cli w2 c) ->
     (forall s, w_owner w1 s = w_owner w2 s) -> w_oos w1 = w_oos w2 -> w_log w1 = w_log w2 -> Inv w1 -> Inv w2.
   Proof.
@@ -1006,7 +1016,7 @@ Section WithParams.
     - intros c s co dk bv cv evv Hin. rewrite <- E5 in Hin. rewrite <- E4. eapply (inv_log w1 H); eauto.
   Qed.
 
-  Lemma step_inv : forall w o, op_ok o -> Inv w -> Inv (step valid bdef hb session w o).
+  Lemma step_inv : forall w o, op_ok o -> Inv w -> Inv (step valid bdefs psrc hb session w o).
   Proof.
     intros w o Hok HI. destruct o as [c raw|c s0 ss|c|c]; cbn [step].
     - (* OConnect *)
@@ -1020,9 +1030,9 @@ Section WithParams.
           rewrite upd_neq by auto. exact H.
         * intros c' cl Hc. destruct (Nat.eq_dec c' c) as [E|E].
           -- subst. rewrite upd_eq in Hc. inversion Hc; subst. cbn [c_map c_told c_held].
-             split; [apply has5_set_from_list; apply pool_has5|].
+             split; [apply has5_set_from_list; apply (pool_has5 valid (bdefs psrc) (Hbdefs psrc))|].
              split.
-             { apply allvalid_set_from_list; [apply pool_valid|].
+             { apply allvalid_set_from_list; [apply (pool_valid valid (bdefs psrc) (Hbdefs psrc))|].
                unfold op_ok, connect_valid in Hok. rewrite Ed in Hok. rewrite forallb_forall in Hok.
                intros k v Hin Ht. specialize (Hok (k, v) Hin). cbn [fst snd] in Hok. rewrite Ht in Hok.
                cbn [negb orb] in Hok. auto. }
@@ -1043,10 +1053,10 @@ Section WithParams.
       destruct tgt as [[s checkout]|] eqn:Etgt; auto.
       (* facts about the server right before the client's message reaches it *)
       set (sv0 := w_srv w s).
-      set (sv1 := if checkout then sync_parameters valid bdef sv0 (c_map cl) else sv0).
-      assert (Hpre : SrvInv sv1 /\ Agree (c_map cl) (truth sv1) /\ InOK (truth sv1) (flags (pg sv1)) /\
-                     (w_oos w = false -> CleanOK (truth sv1) (flags (pg sv1))) /\
-                     (checkout = true -> w_oos w = false -> dirty_keys bdef (truth sv1) = []) /\
+      set (sv1 := if checkout then sync_parameters valid (bdefs s) sv0 (c_map cl) else sv0).
+      assert (Hpre : SrvInv valid sv1 /\ Agree (c_map cl) (truth sv1) /\ InOK (truth sv1) (flags (pg sv1)) /\
+                     (w_oos w = false -> CleanOK (bdefs s) (truth sv1) (flags (pg sv1))) /\
+                     (checkout = true -> w_oos w = false -> dirty_keys (bdefs s) (truth sv1) = []) /\
                      (w_owner w s = Some c \/ (w_owner w s = None /\ c_held cl = None))).
       { unfold tgt in Etgt. destruct (c_held cl) as [s'|] eqn:Eh.
         - inversion Etgt; subst s' checkout. unfold sv1, sv0.
@@ -1057,25 +1067,25 @@ Section WithParams.
           split; auto. split; [discriminate|]. left. auto.
         - destruct (w_owner w s0) eqn:Eo; [discriminate|]. inversion Etgt; subst s checkout.
           unfold sv1, sv0. destruct (inv_idle w HI s0 Eo) as [Hid Hcl].
-          destruct (sync_lemma (w_srv w s0) (c_map cl) (inv_srv w HI s0) Hid Hh5 Hav) as (S1 & S2 & S3 & S4).
+          destruct (sync_lemma valid (bdefs s0) (Hbdefs s0) (w_srv w s0) (c_map cl) (inv_srv w HI s0) Hid Hh5 Hav) as (S1 & S2 & S3 & S4).
           split; auto. split; auto.
           destruct S2 as [St Sn Si].
           split; [intros _; unfold flags; cbn [snd]; exact Si|].
           split.
           + intros Hoo. unfold CleanOK, flags. cbn [fst]. intros _. split; [apply S4; auto|].
-            intros m Hm. destruct S1 as [SB _]. destruct (bi_ti _ SB St) as [_ Hsn]. congruence.
+            intros m Hm. destruct S1 as [SB _]. destruct (bi_ti _ _ SB St) as [_ Hsn]. congruence.
           + split.
-            * intros _ Hoo. destruct S1 as [SB _]. destruct (bi_ti _ SB St) as [Hl _].
+            * intros _ Hoo. destruct S1 as [SB _]. destruct (bi_ti _ _ SB St) as [Hl _].
               apply dirty_clean; auto.
             * right. auto. }
       destruct Hpre as (HS1 & Hag1 & Hin1 & Hcl1 & Hdk1 & Hown1).
-      destruct (exchange sv1 (c_map cl) ss HS1 Hh5 Hag1 Hin1) as (Erecv & HS2 & Hag2 & Hh2 & Hav2 & Hq2 & Hcl2 & Hkeys).
-      destruct (be_query valid bdef (truth sv1) ss) as [b' evs] eqn:Eq. cbn [fst snd] in *.
+      destruct (exchange valid (bdefs s) (Hbdefs s) sv1 (c_map cl) ss HS1 Hh5 Hag1 Hin1) as (Erecv & HS2 & Hag2 & Hh2 & Hav2 & Hq2 & Hcl2 & Hkeys).
+      destruct (be_query valid (bdefs s) (truth sv1) ss) as [b' evs] eqn:Eq. cbn [fst snd] in *.
       rewrite Erecv.
       set (cm2 := set_from_list (c_map cl) (frames evs) false) in *.
       set (p' := snd (recv_all (Some (c_map cl)) (pg sv1) evs)) in *.
-      set (oos := w_oos w || msg_oos valid bdef (truth sv1) ss).
-      assert (Hoos : oos = false -> w_oos w = false /\ msg_oos valid bdef (truth sv1) ss = false).
+      set (oos := w_oos w || msg_oos valid (bdefs s) (truth sv1) ss).
+      assert (Hoos : oos = false -> w_oos w = false /\ msg_oos valid (bdefs s) (truth sv1) ss = false).
       { unfold oos. intros H. apply orb_false_iff in H. auto. }
       assert (Htold2 : forall k, tracked k = true -> pget k cm2 = pget k (pset_all (c_told cl) (frames evs))).
       { apply told_step; auto. }
@@ -1084,7 +1094,7 @@ Section WithParams.
                 forall c1 s1 co dk bv cv evv,
                 In (EvStmt c1 s1 co dk bv cv evv)
                    (log_if (negb (is_nil_l (frames evs))) (EvTold c (frames evs))
-                      (EvStmt c s checkout (dirty_keys bdef (truth sv1)) (tvals (eff (truth sv1)))
+                      (EvStmt c s checkout (dirty_keys (bdefs s) (truth sv1)) (tvals (eff (truth sv1)))
                               (tvals (fun k => pget k (c_map cl))) (tvals (fun k => pget k (c_est cl))) :: lg0)) ->
                 bv = cv /\ (co = true -> oos = false -> dk = [])).
       { intros lg0 Hlg0 c1 s1 co dk bv cv evv Hin.
@@ -1135,7 +1145,7 @@ Section WithParams.
       + (* the transaction is over: check-in and release *)
         rewrite release_spec.
         assert (Hq2' : Quies (truth (mkS b' p')) (flags (pg (mkS b' p')))) by exact Hq2.
-        destruct (checkin_lemma (mkS b' p') HS2 Hq2') as (K1 & K2 & K3).
+        destruct (checkin_lemma valid (bdefs s) (Hbdefs s) (mkS b' p') HS2 Hq2') as (K1 & K2 & K3).
         constructor; cbn [w_srv w_cli w_owner w_oos w_log].
         * intros s'. destruct (Nat.eq_dec s' s) as [E|E]; [subst; rewrite upd_eq; auto|rewrite upd_neq by auto; apply (inv_srv w HI)].
         * intros s' Ho. destruct (Nat.eq_dec s' s) as [E|E].
@@ -1168,7 +1178,7 @@ Section WithParams.
       destruct (c_held cl) as [s|] eqn:Eh.
       + rewrite release_spec. pose proof (Hown s eq_refl) as Ho.
         destruct (inv_held w HI s c Ho) as [cl' (Hc' & Hheld & Hag & Hit & Hq & Hcl)].
-        destruct (checkin_lemma (w_srv w s) (inv_srv w HI s) Hq) as (K1 & K2 & K3).
+        destruct (checkin_lemma valid (bdefs s) (Hbdefs s) (w_srv w s) (inv_srv w HI s) Hq) as (K1 & K2 & K3).
         constructor; cbn [w_srv w_cli w_owner w_oos w_log].
         * intros s'. destruct (Nat.eq_dec s' s) as [E|E]; [subst; rewrite upd_eq; auto|rewrite upd_neq by auto; apply (inv_srv w HI)].
         * intros s' Ho'. destruct (Nat.eq_dec s' s) as [E|E].
@@ -1199,12 +1209,12 @@ Section WithParams.
       destruct (c_held cl) as [s|] eqn:Eh.
       + pose proof (Hown s eq_refl) as Ho.
         destruct (inv_held w HI s c Ho) as [cl' (Hc' & Hheld & Hag & Hit & Hq & Hcl)].
-        destruct fresh_inv as (F1 & F2 & F3).
+        destruct (fresh_inv valid (bdefs s) (Hbdefs s)) as (F1 & F2 & F3).
         (* either the connection is replaced, or it goes back as it is: then its flags are clear *)
-        assert (Hnew : exists sv', (if hb (pg (w_srv w s)) then sv' = fresh_srv bdef else sv' = w_srv w s) /\
-                       SrvInv sv' /\ Idle sv' /\ (w_oos w = false -> Clean (b_sess (truth sv')))).
+        assert (Hnew : exists sv', (if hb (pg (w_srv w s)) then sv' = fresh_srv (bdefs s) else sv' = w_srv w s) /\
+                       SrvInv valid sv' /\ Idle sv' /\ (w_oos w = false -> Clean (bdefs s) (b_sess (truth sv')))).
         { destruct (hb (pg (w_srv w s))) eqn:Hb.
-          - exists (fresh_srv bdef). auto.
+          - exists (fresh_srv (bdefs s)). auto.
           - exists (w_srv w s). split; auto. split; [apply (inv_srv w HI)|].
             assert (Hu : is_unclean (pg (w_srv w s)) = false).
             { destruct (is_unclean (pg (w_srv w s))) eqn:E; auto. rewrite (Hhb _ E) in Hb. discriminate. }
@@ -1252,7 +1262,7 @@ Section WithParams.
           rewrite upd_neq in Hc2 by auto. apply (inv_cli w HI c' cl2 Hc2).
   Qed.
 
-  Lemma run_from_inv : forall ops w, startup_valid valid ops = true -> Inv w -> Inv (run_from valid bdef hb session w ops).
+  Lemma run_from_inv : forall ops w, startup_valid valid ops = true -> Inv w -> Inv (run_from valid bdefs psrc hb session w ops).
   Proof.
     induction ops as [|o ops IH]; intros w Hv HI; auto.
     unfold startup_valid in Hv. cbn [forallb] in Hv. apply andb_true_iff in Hv. destruct Hv as [Ho Hv].
@@ -1260,19 +1270,19 @@ Section WithParams.
     destruct o; cbn [op_ok]; auto.
   Qed.
 
-  Lemma run_inv : forall ops, startup_valid valid ops = true -> Inv (run valid bdef hb session ops).
+  Lemma run_inv : forall ops, startup_valid valid ops = true -> Inv (run valid bdefs psrc hb session ops).
   Proof. intros. apply run_from_inv; auto. apply inv_init. Qed.
 
   Lemma synced_before_statement : forall ops, startup_valid valid ops = true ->
-    forall c s co dk bv cv evv, In (EvStmt c s co dk bv cv evv) (w_log (run valid bdef hb session ops)) -> bv = cv.
+    forall c s co dk bv cv evv, In (EvStmt c s co dk bv cv evv) (w_log (run valid bdefs psrc hb session ops)) -> bv = cv.
   Proof. intros ops H c s co dk bv cv evv Hin. eapply (inv_log _ (run_inv ops H)); eauto. Qed.
 
-  Lemma handoff_clean : forall ops, startup_valid valid ops = true -> w_oos (run valid bdef hb session ops) = false ->
-    forall c s dk bv cv evv, In (EvStmt c s true dk bv cv evv) (w_log (run valid bdef hb session ops)) -> dk = [].
+  Lemma handoff_clean : forall ops, startup_valid valid ops = true -> w_oos (run valid bdefs psrc hb session ops) = false ->
+    forall c s dk bv cv evv, In (EvStmt c s true dk bv cv evv) (w_log (run valid bdefs psrc hb session ops)) -> dk = [].
   Proof. intros ops H Ho c s dk bv cv evv Hin. eapply (inv_log _ (run_inv ops H)); eauto. Qed.
 
   Lemma told_same : forall ops, startup_valid valid ops = true ->
-    forall c cl, w_cli (run valid bdef hb session ops) c = Some cl ->
+    forall c cl, w_cli (run valid bdefs psrc hb session ops) c = Some cl ->
     forall k, tracked k = true -> pget k (c_map cl) = pget k (c_told cl).
   Proof. intros ops H c cl Hc. apply (inv_cli _ (run_inv ops H) c cl Hc). Qed.
 
@@ -1316,7 +1326,7 @@ Section WithParams.
     inv2_cli : forall c cl, w_cli w c = Some cl -> EstOK cl;
     inv2_log : forall c s co dk bv cv evv, In (EvStmt c s co dk bv cv evv) (w_log w) -> cv = evv }.
 
-  Lemma step_inv2 : forall w o, Inv2 w -> Inv2 (step valid bdef hb session w o).
+  Lemma step_inv2 : forall w o, Inv2 w -> Inv2 (step valid bdefs psrc hb session w o).
   Proof.
     intros w o [HC HL]. destruct o as [c raw|c s0 ss|c|c]; cbn [step].
     - destruct (w_cli w c) eqn:Ec; [constructor; auto|].
@@ -1335,9 +1345,9 @@ Section WithParams.
                 | Some s => Some (s, false)
                 | None => match w_owner w s0 with None => Some (s0, true) | Some _ => None end
                 end) as [[s checkout]|]; [|constructor; auto].
-      set (sv1 := if checkout then sync_parameters valid bdef (w_srv w s) (c_map cl) else w_srv w s).
-      pose proof (be_query_keys ss (truth sv1)) as Hkeys.
-      destruct (be_query valid bdef (truth sv1) ss) as [b' evs] eqn:Eq. cbn [snd] in Hkeys.
+      set (sv1 := if checkout then sync_parameters valid (bdefs s) (w_srv w s) (c_map cl) else w_srv w s).
+      pose proof (be_query_keys valid (bdefs s) ss (truth sv1)) as Hkeys.
+      destruct (be_query valid (bdefs s) (truth sv1) ss) as [b' evs] eqn:Eq. cbn [snd] in Hkeys.
       rewrite recv_all_spec. cbn [fst snd].
       assert (Hest : EstOK (mkC (set_from_list (c_map cl) (frames evs) false) (pset_all (c_told cl) (frames evs))
                                 (pset_all (c_est cl) (frames evs)) None) /\
@@ -1352,7 +1362,7 @@ Section WithParams.
                 forall c1 s1 co dk bv cv evv,
                 In (EvStmt c1 s1 co dk bv cv evv)
                    (log_if (negb (is_nil_l (frames evs))) (EvTold c (frames evs))
-                      (EvStmt c s checkout (dirty_keys bdef (truth sv1)) (tvals (eff (truth sv1)))
+                      (EvStmt c s checkout (dirty_keys (bdefs s) (truth sv1)) (tvals (eff (truth sv1)))
                               (tvals (fun k => pget k (c_map cl))) (tvals (fun k => pget k (c_est cl))) :: lg0)) ->
                 cv = evv).
       { pose proof (HC c cl Ec) as HE.
@@ -1394,16 +1404,16 @@ Section WithParams.
       intros c1 s1 co dk bv cv evv Hin. destruct Hin as [Hin|Hin]; [discriminate|]. eauto.
   Qed.
 
-  Lemma run_from_inv2 : forall ops w, Inv2 w -> Inv2 (run_from valid bdef hb session w ops).
+  Lemma run_from_inv2 : forall ops w, Inv2 w -> Inv2 (run_from valid bdefs psrc hb session w ops).
   Proof.
     induction ops as [|o ops IH]; intros w HI; auto.
     unfold run_from. cbn [fold_left]. apply IH; auto. apply step_inv2; auto.
   Qed.
 
   Lemma established : forall ops,
-    forall c s co dk bv cv evv, In (EvStmt c s co dk bv cv evv) (w_log (run valid bdef hb session ops)) -> cv = evv.
+    forall c s co dk bv cv evv, In (EvStmt c s co dk bv cv evv) (w_log (run valid bdefs psrc hb session ops)) -> cv = evv.
   Proof.
-    intros ops. apply (inv2_log (run valid bdef hb session ops)). apply run_from_inv2; auto.
+    intros ops. apply (inv2_log (run valid bdefs psrc hb session ops)). apply run_from_inv2; auto.
     constructor; cbn [init w_cli w_log]; intros; [discriminate|contradiction].
   Qed.
 
@@ -1411,7 +1421,7 @@ Section WithParams.
   Definition op_client (o : op) : nat :=
     match o with OConnect c _ => c | OQuery c _ _ => c | ODisconnect c => c | OAbort c => c end.
 
-  Lemma step_frame : forall w o c, op_client o <> c -> w_cli (step valid bdef hb session w o) c = w_cli w c.
+  Lemma step_frame : forall w o c, op_client o <> c -> w_cli (step valid bdefs psrc hb session w o) c = w_cli w c.
   Proof.
     intros w o c Hne. destruct o as [c0 raw|c0 s0 ss|c0|c0]; cbn [op_client] in Hne; cbn [step].
     - destruct (w_cli w c0); auto. destruct (startup_decode raw); cbn [w_cli]; auto. apply upd_neq. auto.
@@ -1420,7 +1430,7 @@ Section WithParams.
                 | Some s => Some (s, false)
                 | None => match w_owner w s0 with None => Some (s0, true) | Some _ => None end
                 end) as [[s checkout]|]; auto.
-      destruct (be_query valid bdef _ ss) as [b' evs].
+      destruct (be_query valid _ _ ss) as [b' evs].
       destruct (recv_all _ _ evs) as [cm' p'].
       destruct (in_txn p' || session c0); [|rewrite release_spec]; cbn [w_cli]; apply upd_neq; auto.
     - destruct (w_cli w c0) as [cl|]; auto. destruct (c_held cl); [rewrite release_spec|]; cbn [w_cli]; apply upd_neq; auto.
@@ -1430,14 +1440,14 @@ Section WithParams.
 
   (** the ParameterStatus frames sent at startup are exactly the client's map *)
   Lemma connect_told : forall w c raw ps, w_cli w c = None -> startup_decode raw = Some ps ->
-    let w' := step valid bdef hb session w (OConnect c raw) in
-    exists cl, w_cli w' c = Some cl /\ c_told cl = c_map cl /\ c_map cl = set_from_list (pool bdef) ps false /\
+    let w' := step valid bdefs psrc hb session w (OConnect c raw) in
+    exists cl, w_cli w' c = Some cl /\ c_told cl = c_map cl /\ c_map cl = set_from_list (wpool bdefs psrc) ps false /\
                w_log w' = EvTold c (c_map cl) :: w_log w.
   Proof.
     intros w c raw ps Hc Hd. cbn [step]. rewrite Hc, Hd. cbn [w_cli w_log].
     eexists. rewrite upd_eq. split; [reflexivity|]. cbn [c_told c_map]. auto.
   Qed.
-End WithParams.
+End World.
 
 (** the order in which the statements of the batch are generated (HashMap order) is irrelevant *)
 From Coq Require Import Permutation.
@@ -1457,25 +1467,28 @@ Proof.
       intros Hc. apply Hnin. eapply Permutation_in; [apply Permutation_sym; apply Permutation_map|]; eauto.
 Qed.
 
-Lemma told_same_all : forall valid bdef hb session,
-  bdef_ok valid bdef = true -> (forall p, is_unclean p = true -> hb p = true) ->
+Lemma told_same_all : forall valid bdefs psrc hb session,
+  (forall s, bdef_ok valid (bdefs s) = true) -> (forall p, is_unclean p = true -> hb p = true) ->
   (forall w c raw ps, w_cli w c = None -> startup_decode raw = Some ps ->
-     exists cl, w_cli (step valid bdef hb session w (OConnect c raw)) c = Some cl /\ c_told cl = c_map cl /\
-                c_map cl = set_from_list (pool bdef) ps false /\
-                w_log (step valid bdef hb session w (OConnect c raw)) = EvTold c (c_map cl) :: w_log w) /\
+     exists cl, w_cli (step valid bdefs psrc hb session w (OConnect c raw)) c = Some cl /\ c_told cl = c_map cl /\
+                c_map cl = set_from_list (wpool bdefs psrc) ps false /\
+                w_log (step valid bdefs psrc hb session w (OConnect c raw)) = EvTold c (c_map cl) :: w_log w) /\
   (forall ops, startup_valid valid ops = true ->
-     forall c cl, w_cli (run valid bdef hb session ops) c = Some cl ->
+     forall c cl, w_cli (run valid bdefs psrc hb session ops) c = Some cl ->
      forall k, tracked k = true -> pget k (c_map cl) = pget k (c_told cl)).
-Proof. intros valid bdef hb session H1 H2. split; [exact (connect_told valid bdef hb session)|exact (told_same valid bdef hb session H1 H2)]. Qed.
+Proof.
+  intros valid bdefs psrc hb session H1 H2.
+  split; [exact (connect_told valid bdefs psrc hb session)|exact (told_same valid bdefs psrc hb session H1 H2)].
+Qed.
 
-Lemma no_cross_client : forall valid bdef hb session,
-  bdef_ok valid bdef = true -> (forall p, is_unclean p = true -> hb p = true) ->
+Lemma no_cross_client : forall valid bdefs psrc hb session,
+  (forall s, bdef_ok valid (bdefs s) = true) -> (forall p, is_unclean p = true -> hb p = true) ->
   forall ops, startup_valid valid ops = true ->
   forall c s dk bv cv evv,
-    In (EvStmt c s true dk bv cv evv) (w_log (run valid bdef hb session ops)) ->
-    bv = cv /\ (w_oos (run valid bdef hb session ops) = false -> dk = []).
+    In (EvStmt c s true dk bv cv evv) (w_log (run valid bdefs psrc hb session ops)) ->
+    bv = cv /\ (w_oos (run valid bdefs psrc hb session ops) = false -> dk = []).
 Proof.
-  intros valid bdef hb session H1 H2 ops H3 c s dk bv cv evv Hin. split.
-  - exact (synced_before_statement valid bdef hb session H1 H2 ops H3 c s true dk bv cv evv Hin).
-  - intros Ho. exact (handoff_clean valid bdef hb session H1 H2 ops H3 Ho c s dk bv cv evv Hin).
+  intros valid bdefs psrc hb session H1 H2 ops H3 c s dk bv cv evv Hin. split.
+  - exact (synced_before_statement valid bdefs psrc hb session H1 H2 ops H3 c s true dk bv cv evv Hin).
+  - intros Ho. exact (handoff_clean valid bdefs psrc hb session H1 H2 ops H3 Ho c s dk bv cv evv Hin).
 Qed.
